@@ -1,0 +1,111 @@
+//! Fault-injection points for the crash-safety check of git dependency fetching.
+//!
+//! Only compiled with the (default-off) cargo feature `fuellabs_sway_verif`.
+//!
+//! Every file-system step of the fetch is followed by a named point. Points are numbered per name
+//! in the order in which the process passes them (`<name>#<k>`, `k` from 0).
+//!
+//! * `SWAY_VERIF_FAULT_LOG=<file>`: append `<name>#<k>` to `<file>` whenever a point is passed.
+//! * `SWAY_VERIF_FAULT=<name>#<k>:err`: the point returns an injected `io::Error`, which then
+//!   takes the normal error path of the surrounding code.
+//! * `SWAY_VERIF_FAULT=<name>#<k>:abort`: the process aborts at the point (no destructors run).
+//!
+//! The points passed once per checked out file (`checkout_progress`) sit inside libgit2's checkout
+//! and cannot return an error. For `err` they instead call the handler registered with
+//! [set_write_failure_handler] with `true`, which is expected to make every further file write of
+//! the process fail, and with `false` once the checkout call has returned.
+
+use std::{
+    collections::HashMap,
+    io::{self, Write},
+    sync::{Mutex, OnceLock},
+};
+
+/// What to do at the selected point.
+#[derive(Clone, Copy, Debug, PartialEq, Eq)]
+pub enum Mode {
+    Err,
+    Abort,
+}
+
+type WriteFailureHandler = Box<dyn Fn(bool) + Send + Sync>;
+
+static COUNTS: Mutex<Option<HashMap<String, usize>>> = Mutex::new(None);
+static WRITE_FAILURE_HANDLER: OnceLock<WriteFailureHandler> = OnceLock::new();
+
+/// Register the handler used by `checkout_progress` points in `err` mode.
+pub fn set_write_failure_handler(handler: WriteFailureHandler) {
+    let _ = WRITE_FAILURE_HANDLER.set(handler);
+}
+
+/// Record that the point `name` is being passed. Returns its numbered name and whether (and how)
+/// it was selected to fail.
+fn pass(name: &str) -> (String, Option<Mode>) {
+    let k = {
+        let mut counts = COUNTS.lock().unwrap_or_else(|e| e.into_inner());
+        let counter = counts
+            .get_or_insert_with(HashMap::new)
+            .entry(name.to_string())
+            .or_insert(0);
+        let k = *counter;
+        *counter += 1;
+        k
+    };
+    let full = format!("{name}#{k}");
+    if let Some(log) = std::env::var_os("SWAY_VERIF_FAULT_LOG") {
+        if let Ok(mut file) = std::fs::OpenOptions::new()
+            .create(true)
+            .append(true)
+            .open(log)
+        {
+            let _ = writeln!(file, "{full}");
+        }
+    }
+    let mode = std::env::var("SWAY_VERIF_FAULT").ok().and_then(|spec| {
+        let (point, mode) = spec.rsplit_once(':')?;
+        if point != full {
+            return None;
+        }
+        match mode {
+            "err" => Some(Mode::Err),
+            "abort" => Some(Mode::Abort),
+            _ => None,
+        }
+    });
+    (full, mode)
+}
+
+/// A fault-injection point between two file-system steps.
+pub fn point(name: &str) -> io::Result<()> {
+    match pass(name) {
+        (_, None) => Ok(()),
+        (_, Some(Mode::Abort)) => std::process::abort(),
+        (full, Some(Mode::Err)) => Err(io::Error::other(format!("injected fault at {full}"))),
+    }
+}
+
+/// Disarms the write failure requested by a `checkout_progress` point once the checkout is over.
+pub struct CheckoutGuard;
+
+impl Drop for CheckoutGuard {
+    fn drop(&mut self) {
+        if let Some(handler) = WRITE_FAILURE_HANDLER.get() {
+            handler(false);
+        }
+    }
+}
+
+/// Install the per-file points of a checkout: `checkout_progress#0` is passed before the first
+/// file is written and `checkout_progress#<i>` after the `i`th file has been written.
+pub fn checkout_points(checkout: &mut git2::build::CheckoutBuilder) -> CheckoutGuard {
+    checkout.progress(|_path, _completed, _total| match pass("checkout_progress") {
+        (_, None) => {}
+        (_, Some(Mode::Abort)) => std::process::abort(),
+        (_, Some(Mode::Err)) => {
+            if let Some(handler) = WRITE_FAILURE_HANDLER.get() {
+                handler(true);
+            }
+        }
+    });
+    CheckoutGuard
+}
